@@ -85,7 +85,7 @@ impl Rt {
 thread_local! {
     static RT: RefCell<Rt> = RefCell::new(Rt::new());
     /// Set by the engine while a world clone is in flight: called from inside Clone::clone.
-    static CLONE_PROBE: RefCell<Option<Box<dyn FnMut()>>> = const { RefCell::new(None) };
+    static CLONE_PROBE: RefCell<Option<Box<dyn FnMut(u8, u32)>>> = const { RefCell::new(None) };
 }
 
 #[inline]
@@ -103,7 +103,7 @@ pub fn reset(trace: bool) {
     CLONE_PROBE.with(|p| *p.borrow_mut() = None);
 }
 
-pub fn set_clone_probe(p: Option<Box<dyn FnMut()>>) {
+pub fn set_clone_probe(p: Option<Box<dyn FnMut(u8, u32)>>) {
     CLONE_PROBE.with(|c| *c.borrow_mut() = p);
 }
 
@@ -165,7 +165,6 @@ pub fn on_clone_enter(kind: u8, id: u32) {
         let k = r.clone_calls;
         r.clone_calls += 1;
         r.counters[kind as usize].cloned += 1;
-        let _ = id;
         (
             r.inject_clone_at == Some(k) && r.fired.is_none(),
             r.probe_clone_at == Some(k),
@@ -175,7 +174,7 @@ pub fn on_clone_enter(kind: u8, id: u32) {
         // Take the probe out while it runs so that nested clones cannot re-enter it.
         let p = CLONE_PROBE.with(|c| c.borrow_mut().take());
         if let Some(mut p) = p {
-            p();
+            p(kind, id);
             CLONE_PROBE.with(|c| *c.borrow_mut() = Some(p));
         }
     }
